@@ -398,31 +398,34 @@ namespace GeographicLib {
       // The last condition is that M0 = -1 implies N0 = -1.
       throw GeographicErr("Bad degree and order " +
                           Utility::str(N0) + " " + Utility::str(M0));
-    N = truncate ? min(N, N0) : N0;
-    M = truncate ? min(M, M0) : M0;
-    C.resize(SphericalEngine::coeff::Csize(N, M));
-    S.resize(SphericalEngine::coeff::Ssize(N, M));
+    // Read into local copies so that N, M, C, S are unchanged if a read fails.
+    int N1 = truncate ? min(N, N0) : N0, M1 = truncate ? min(M, M0) : M0;
+    vector<real>
+      C1(SphericalEngine::coeff::Csize(N1, M1)),
+      S1(SphericalEngine::coeff::Ssize(N1, M1));
     int skip = (SphericalEngine::coeff::Csize(N0, M0) -
-                SphericalEngine::coeff::Csize(N0, M )) * sizeof(double);
-    if (N == N0) {
-      Utility::readarray<double, real, false>(stream, C);
+                SphericalEngine::coeff::Csize(N0, M1)) * sizeof(double);
+    if (N1 == N0) {
+      Utility::readarray<double, real, false>(stream, C1);
       if (skip) stream.seekg(streamoff(skip), ios::cur);
-      Utility::readarray<double, real, false>(stream, S);
+      Utility::readarray<double, real, false>(stream, S1);
       if (skip) stream.seekg(streamoff(skip), ios::cur);
     } else {
-      for (int m = 0, k = 0; m <= M; ++m) {
-        Utility::readarray<double, real, false>(stream, &C[k], N + 1 - m);
-        stream.seekg((N0 - N) * sizeof(double), ios::cur);
-        k += N + 1 - m;
+      for (int m = 0, k = 0; m <= M1; ++m) {
+        Utility::readarray<double, real, false>(stream, &C1[k], N1 + 1 - m);
+        stream.seekg((N0 - N1) * sizeof(double), ios::cur);
+        k += N1 + 1 - m;
       }
       if (skip) stream.seekg(streamoff(skip), ios::cur);
-      for (int m = 1, k = 0; m <= M; ++m) {
-        Utility::readarray<double, real, false>(stream, &S[k], N + 1 - m);
-        stream.seekg((N0 - N) * sizeof(double), ios::cur);
-        k += N + 1 - m;
+      for (int m = 1, k = 0; m <= M1; ++m) {
+        Utility::readarray<double, real, false>(stream, &S1[k], N1 + 1 - m);
+        stream.seekg((N0 - N1) * sizeof(double), ios::cur);
+        k += N1 + 1 - m;
       }
       if (skip) stream.seekg(streamoff(skip), ios::cur);
     }
+    N = N1; M = M1;
+    C.swap(C1); S.swap(S1);
     return;
   }
 
